@@ -75,3 +75,6 @@ package ports
 //@   records lastSecErr = res1
 //@   ensures true
 //@ interface SecurityMetricsService.RecordViolation
+
+//@ interface Filter.Apply
+//@   ensures res1 == nil ==> res0 != nil
